@@ -18,6 +18,15 @@
 #![no_std]
 #![no_main]
 
+#[cfg(not(any(
+    feature = "fs-exe",
+    feature = "fs-aux",
+    feature = "fs-noaux",
+    feature = "fs-exe-threaded",
+    feature = "fs-noaux-threaded"
+)))]
+compile_error!("build with exactly one of the fs-* features (see Cargo.toml)");
+
 use rusl::platform::{OpenFlags, STDIN, STDOUT};
 use tiny_std::env::VarError;
 use tiny_std::UnixStr;
@@ -389,6 +398,18 @@ pub fn main() -> i32 {
         }
     }
 
+    // ---- 'F': <bit0 aux compiled | bit1 vdso compiled | bit2 threaded compiled> <FS base:u64>
+    {
+        let flags = u8::from(cfg!(feature = "has-aux"))
+            | (u8::from(cfg!(feature = "has-vdso")) << 1)
+            | (u8::from(cfg!(feature = "has-threaded")) << 2);
+        let mut fs_base = 0u64;
+        unsafe {
+            // ARCH_GET_FS
+            sc::syscall!(ARCH_PRCTL, 0x1003, core::ptr::addr_of_mut!(fs_base));
+        }
+        rec(b'F', &[&[flags], &fs_base.to_le_bytes()]);
+    }
     // ---- 'n': <args_os().len():u64> <args().len():u64>
     {
         let a = tiny_std::env::args_os().len() as u64;
@@ -434,16 +455,35 @@ pub fn main() -> i32 {
             }
         }
     }
-    // ---- aux getters: 'u' uid:u32, 'g' gid:u32, 'r' <has:u8> 16 bytes, 'e' <has:u8> path
-    rec(b'u', &[&tiny_std::elf::aux::get_uid().to_le_bytes()]);
-    rec(b'g', &[&tiny_std::elf::aux::get_gid().to_le_bytes()]);
-    match tiny_std::elf::aux::get_random() {
-        Some(r) => rec(b'r', &[&[1u8], &r.to_ne_bytes()]),
-        None => rec(b'r', &[&[0u8]]),
+    // ---- 'W' / 'w': var_unix / var of a fixed key, looked up in every run (also when no
+    //      `--keys` were given), same status bytes as 'U' / 'V'
+    {
+        let k = UnixStr::from_str_checked("C07_PROBE_ALWAYS\0");
+        match tiny_std::env::var_unix(k) {
+            Ok(v) => rec(b'W', &[&[0u8], body(v)]),
+            Err(VarError::Missing) => rec(b'W', &[&[1u8]]),
+            Err(VarError::NotUnicode(_)) => rec(b'W', &[&[2u8]]),
+        }
+        match tiny_std::env::var("C07_PROBE_ALWAYS") {
+            Ok(v) => rec(b'w', &[&[0u8], v.as_bytes()]),
+            Err(VarError::Missing) => rec(b'w', &[&[1u8]]),
+            Err(VarError::NotUnicode(_)) => rec(b'w', &[&[2u8]]),
+        }
     }
-    match tiny_std::elf::aux::get_exec_fn() {
-        Some(p) => rec(b'e', &[&[1u8], body(p)]),
-        None => rec(b'e', &[&[0u8]]),
+    // ---- aux getters: 'u' uid:u32, 'g' gid:u32, 'r' <has:u8> 16 bytes, 'e' <has:u8> path
+    //      (only where feature `aux` is compiled)
+    #[cfg(feature = "has-aux")]
+    {
+        rec(b'u', &[&tiny_std::elf::aux::get_uid().to_le_bytes()]);
+        rec(b'g', &[&tiny_std::elf::aux::get_gid().to_le_bytes()]);
+        match tiny_std::elf::aux::get_random() {
+            Some(r) => rec(b'r', &[&[1u8], &r.to_ne_bytes()]),
+            None => rec(b'r', &[&[0u8]]),
+        }
+        match tiny_std::elf::aux::get_exec_fn() {
+            Some(p) => rec(b'e', &[&[1u8], body(p)]),
+            None => rec(b'e', &[&[0u8]]),
+        }
     }
     // ---- 'X': raw /proc/self/auxv of this process ('x' <errno:i32> when unreadable)
     let mut auxv = [0u8; 2048];
@@ -488,6 +528,7 @@ pub fn main() -> i32 {
     }
     // ---- 'O': layout of tiny_start::elf::aux::AuxValues: 10 field offsets + size, u16 each,
     //      order base gid uid phdr phent phnum random secure sysinfo_ehdr execfn
+    #[cfg(feature = "has-aux")]
     {
         use core::mem::offset_of;
         use tiny_start::elf::aux::AuxValues as A;
